@@ -106,6 +106,9 @@ Definition sanitize_iface (sc : sschema) (children : list ssel) (cond odef : str
     let pts' := if partial then filter (fun pt => smem pt (possible_of sc cond)) pts else pts in
     fold_left (fun acc pt => add_to_result acc [SanFrag pt pt dirs children]) pts' (if partial then [] else children).
 
+Definition other_abstract (sc : sschema) (cond odef : string) : bool :=
+  (match kind_of sc cond with KOther => false | _ => true end) && negb (cond =? odef).
+
 (* setMissingScrubFieldsForFieldSelectionSet *)
 Definition set_missing (sc : sschema) (ip : list string) (alias ty : string) (sel : list ssel) (s : scrub) (added : list string) : scrub :=
   let path := ip ++ [alias] in
@@ -193,7 +196,10 @@ Fixpoint san_sel (tm : tmap) (sc : sschema) (ip : list string) (s : ssel) (acc :
       let scr2 := set_frag sc ip c scr1 added in
       match kind_of sc o with
       | KIface => (add_to_result result (sanitize_iface sc child' c o fd), scr2)
-      | KUnion => (add_to_result result (sanitize_union child' c o fd), scr2)
+      | KUnion =>
+          (* since the fix: a fragment on another abstract type inside a union is written out for the member types it
+             applies to, like inside an interface (the service of the union need not know that type) *)
+          (add_to_result result (if other_abstract sc c o then sanitize_iface sc child' c o fd else sanitize_union child' c o fd), scr2)
       | KOther => (add_to_result result child', scr2)
       end
   end.
